@@ -102,7 +102,7 @@ PROPS = {
         assumptions=["kernel values / mixture responsibilities are non-negative", "AnnotatorLogisticRegression and the mixture model are numerical optimisers: bounded only"],
         explanation="normalisation and decision contracts of the classifier base classes; all classifiers swept over training-set patterns, class orders and cost matrices"),
     "C12": dict(
-        units=[("contracts.classifiers", has("C12"))],
+        units=[("contracts.classifiers", has("C12")), ("contracts.frames", has("F4"))],
         bounded=[("bounded/models.py", "C12")],
         trusted=[L2_BASE],
         assumptions=["the wrapped estimator's fit is a function of its arguments (and permutation invariant)"],
@@ -185,6 +185,10 @@ def run(prop, tier, seed, write_baseline=False, only=None):
         if os.path.exists(os.path.join(ROOT, script)):
             chk.add_bounded(run_bounded(script, p, tier, seed))
     n_units = sum(len(n) for _, n in groups)
-    level = None if n_units else "exploration"
+    import json
+    claimed = json.load(open(os.path.join(ROOT, "props", "levels.json"))).get(prop, {}).get("category")
+    # the evidence level is the level claimed in MANIFEST.json; a proof-level claim is downgraded by the driver itself
+    # (to "other") whenever an obligation is not discharged on this run
+    level = claimed if (claimed and claimed != "proof") else (None if n_units else "exploration")
     return chk.finish(checker_cmd=f"python3-vt check.py {prop} --tier {tier}", trusted_base=spec["trusted"],
                       assumptions=spec["assumptions"], explanation=spec["explanation"], level_override=level)
